@@ -112,19 +112,20 @@ def fold(ctx, job, r):
     if r.rc != 0:
         raise Machinery("TLC failed on %s (rc=%d):\n%s" % (lab, r.rc, "\n".join(r.out.splitlines()[-30:])))
     if job.get("coverage"):
-        never = uncovered_actions(r.out)
-        if never:
-            raise Machinery("vacuous model check %s: actions never taken: %s" % (lab, ", ".join(never)))
+        # judged over the union of the covered configurations (run(): an action taken in none of them = vacuous)
+        ctx.never_taken = getattr(ctx, "never_taken", None)
+        nv = set(uncovered_actions(r.out))
+        ctx.never_taken = nv if ctx.never_taken is None else (ctx.never_taken & nv)
 
 
 def uncovered_actions(out):
     """Action names of TLSConnImpl whose coverage count is zero (tlc -coverage 1)."""
-    never = []
+    last = {}      # the final report counts (with -coverage 1 TLC also prints interim reports)
     for m in re.finditer(r"<(\w+) line \d+, col \d+ to line \d+, col \d+ of module TLSConnImpl>: (\d+):(\d+)", out):
-        name, distinct, total = m.group(1), int(m.group(2)), int(m.group(3))
-        if total == 0 and name not in ("Init",):
-            never.append(name)
-    return sorted(set(never))
+        last[m.group(1)] = int(m.group(3))
+    if "HsLock" not in last:
+        raise Machinery("no coverage report found in TLC output")
+    return sorted(n for n, total in last.items() if total == 0 and n != "Init")
 
 
 def wit_jobs(ctx):
@@ -184,7 +185,7 @@ def mc_jobs(ctx):
         add("safety client12 ProgsQuick", "TLSConn_mc.cfg", PROGS="ProgsQuick", coverage=True, timeout=3000,
             KINDS='{"d1","d2"}')
         add("safety client13 ProgsMut hs+ku", "TLSConn_mc.cfg", PROGS="ProgsMut", SHAPE="ShapeClient13", MAXPEER="2",
-            KINDS='{"d2","hs","ku"}', timeout=3000)
+            KINDS='{"d2","hs","ku"}', timeout=3000, coverage=True)
         add("safety server12 ProgsMut", "TLSConn_mc.cfg", PROGS="ProgsMut", SHAPE="ShapeServer12", timeout=3000)
         add("safety server13 ProgsMut", "TLSConn_mc.cfg", PROGS="ProgsMut", SHAPE="ShapeServer13", timeout=3000)
         add("liveness proto", "TLSConn_live.cfg", PROGS="ProgsProto", MAXPEER="1", timeout=3000)
@@ -618,6 +619,8 @@ def run(ctx):
         fold(ctx, j, r)
     if len(bg.results) != len(bg.jobs):
         raise Machinery("background TLC did not run every job")
+    if getattr(ctx, "never_taken", None):
+        raise Machinery("vacuous model check: actions taken in no covered configuration: %s" % ", ".join(sorted(ctx.never_taken)))
     ctx.assumptions.append("transport reliable and ordered; peer honest (real zcrypto endpoint)")
     ctx.assumptions.append("Go race detector and runtime.Stack goroutine states are trusted observers")
 
